@@ -192,7 +192,8 @@ def _tap_failures(recs: list[dict], offs: dict, where: str) -> list[dict]:
 def _execute(zy, sc: dict, W: World) -> dict:
     W.populate(sc["world"])
     failures, harness = [], None
-    stats = {"faults": [], "fault_classes": [], "offender_langs": [], "trivial": True, "steps": 0, "cmds": sc["cmds"]}
+    stats = {"faults": [], "fault_classes": [], "offender_langs": [], "trivial": True, "steps": 0, "cmds": sc["cmds"],
+             "focus": bool(sc.get("focus"))}
     root = str(W.proj)
     # ---- baseline without offenders
     base = zy.call("vsim.ops:api_call", {"env": _env(W, sc, "tap-base.jsonl"), "root": root, "method": "lint_directory",
@@ -487,12 +488,14 @@ def evidence(outputs: list[dict], tier: str, seed: int) -> dict:
                 "line_events": r["stats"]["steps"]} for r in nontrivial[:4]]
     return {"coverage": {
         "evaluations": len(runs), "distinct_nontrivial": len(distinct),
-        "rule": "one evaluation = one healthy project + 1-3 offenders built by a fault sequence, linted at API level "
-                "(sequential with line-event cap, and through SimPool workers) and by 2-3 CLI commands; non-trivial = "
+        "rule": "one evaluation = one healthy project + 1-6 offenders, each built by a fault sequence, linted at API level "
+                "(directory run with line-event cap, lint_files with the offenders first, SimPool workers) and by 2-3 CLI commands; non-trivial = "
                 "the faults changed the offender's bytes; distinct = distinct (final language, fault-kind sequence) tuples",
         "samples": samples or [{"note": "no non-trivial run"}],
         "fault_kinds_fired": dict(kinds), "fault_class_sequences": dict(classes.most_common(40)),
         "offender_languages": dict(langs), "cli_commands_run": dict(cmds),
+        "focused_torn_construct_scenarios": sum(1 for r in runs if r["stats"].get("focus")),
+        "offenders_total": sum(r["stats"].get("offenders", 0) for r in runs),
         "line_events_max": max(steps) if steps else 0,
         "line_events_cap": f"{STEP_CAP_BASE} + 10 x baseline line events (inputs without many_funcs), {STEP_CAP_HEAVY} otherwise",
         "exposure_probes": _probe_summary(runs),
